@@ -9,11 +9,15 @@ package c33
 // Wait call/return; the oracle reads the log.
 
 import (
+	"bytes"
 	"context"
 	"errors"
 	"fmt"
 	"hash/fnv"
 	"runtime"
+	"runtime/pprof"
+	"strconv"
+	"strings"
 	"sync"
 	"sync/atomic"
 	"testing"
@@ -90,6 +94,57 @@ func settle(r *vlib.Run, what string, done func() bool) bool {
 	return true
 }
 
+// workerGoroutines counts the live goroutines that carry this case's pprof
+// label and are inside the worker's own code (the job goroutines NewJob
+// starts run in closures of NewBaseJobWorker). Goroutines inherit the labels
+// of their creator, and every NewJob call of a case is made by a labelled
+// goroutine. Zero means: every job goroutine the worker ever started has
+// returned, whatever the machine load -- a logical quiescence criterion.
+func workerGoroutines(label string) int {
+	var buf bytes.Buffer
+	_ = pprof.Lookup("goroutine").WriteTo(&buf, 1)
+	want := fmt.Sprintf("%q:%q", "c33case", label)
+	n := 0
+	for _, blk := range strings.Split(buf.String(), "\n\n") {
+		if !strings.Contains(blk, want) {
+			continue
+		}
+		if !strings.Contains(blk, "mitum/util.NewBaseJobWorker") && !strings.Contains(blk, "mitum/util.NewErrCallbackJobWorker") {
+			continue
+		}
+		k, err := strconv.Atoi(strings.Fields(blk)[0])
+		if err != nil {
+			k = 1
+		}
+		n += k
+	}
+	return n
+}
+
+// settleWorker waits until every accepted job finished or, failing that,
+// until no job goroutine of this worker exists any more (then an accepted job
+// that never started can never start). Only if neither is reached within the
+// watchdog is the case inconclusive.
+func settleWorker(r *vlib.Run, what, label string, allFinished func() bool) bool {
+	begin := time.Now()
+	deadline := begin.Add(20 * time.Second)
+	for !allFinished() {
+		if time.Since(begin) > time.Millisecond {
+			r.Count("goroutine_profiles_taken", 1)
+			if workerGoroutines(label) == 0 {
+				r.Count("quiescence_established_by_goroutine_profile", 1)
+				return true
+			}
+		}
+		if time.Now().After(deadline) {
+			r.Inconclusive("job goroutines still alive 20s after Wait returned in " + what)
+			return false
+		}
+		time.Sleep(200 * time.Microsecond)
+	}
+	return true
+}
+
 func fpOf(c wcase, l *wlog) string {
 	h := fnv.New64a()
 	h.Write(l.hash)
@@ -109,6 +164,9 @@ func inSet(s []int, i int) bool {
 // BaseJobWorker / ErrCallbackJobWorker
 
 func workerCase(r *vlib.Run, idx int) {
+	label := strconv.Itoa(idx)
+	pprof.SetGoroutineLabels(pprof.WithLabels(context.Background(), pprof.Labels("c33case", label)))
+	defer pprof.SetGoroutineLabels(context.Background())
 	rng := r.Rand(33, idx)
 	c := wcase{Mode: "BaseJobWorker", CancelAt: -1, PrefFail: -1}
 	if idx%4 == 3 {
@@ -289,8 +347,9 @@ func workerCase(r *vlib.Run, idx int) {
 		}
 	}
 
-	// stragglers (only possible after an error / cancellation) finish
-	if !settle(r, c.Mode, func() bool {
+	// stragglers (only possible after an error / cancellation) finish, or the
+	// worker has no job goroutine left
+	if !settleWorker(r, c.Mode, label, func() bool {
 		l.mu.Lock()
 		defer l.mu.Unlock()
 		for i := range l.jobs {
@@ -316,7 +375,9 @@ func workerCase(r *vlib.Run, idx int) {
 			rejected++
 		}
 		started += j.starts
-		if j.accepted && j.starts != 1 {
+		if j.accepted && j.starts == 0 {
+			r.Violation(c.Mode+":accepted-job-never-run", fmt.Sprintf("NewJob returned nil for job %d, Wait returned (%v), no job goroutine of the worker is left, and the job's callback was never started", i, waitErr), c)
+		} else if j.accepted && j.starts != 1 {
 			r.Violation(c.Mode+":accepted-job-not-run-exactly-once", fmt.Sprintf("job %d accepted, callback started %d times", i, j.starts), c)
 		}
 		if !j.accepted && j.starts > 0 {
@@ -840,6 +901,7 @@ func TestC33(t *testing.T) {
 	defer r.Finish()
 	r.SetRule("case = one worker run from the seeded PRNG: BaseJobWorker or ErrCallbackJobWorker with 0..300 jobs, semaphore 1..64, 1-3 concurrent submitters, Wait started before or after submitting, failing job sets (none / exactly one / random), optional cancellation of the parent context from inside a job, jobs with scheduling jitter; or BatchWork with size 1..300, limit 1..50, failing visits, failing prepare, cancellation; or RunJobWorker (worker size 1..8, 1..80 jobs) incl. a directed schedule where the submitter waits inside NewJob for a free slot while the running job fails. distinct = parameters + hash of the observed order of job start/finish events; non-trivial = at least 2 jobs")
 	r.Assume("when a job failed or the context was cancelled Wait may return before the remaining jobs finished (the statement only says the first error is returned); the oracle then only requires the returned error to be one a job had already returned")
+	r.Assume("'an accepted job never runs' is decided without a time bound: every goroutine of a case carries a pprof label which the worker's job goroutines inherit; when the goroutine profile shows no labelled goroutine inside the worker's code after Wait returned, no job can start any more")
 	r.Assume("NewJob is not called concurrently with Done(): submitters finish, then Done() is called (as runWorker does)")
 
 	n := r.N(2400, 45000)
